@@ -256,7 +256,8 @@ fn vcls<T>(r: Result<T, VolatileMemoryError>, f: impl FnOnce(T) -> Out) -> Out {
 
 /// data written by operation number `tag`
 pub fn wdata(tag: u8, n: usize) -> Vec<u8> {
-    (0..n).map(|j| 0x80 | (tag.wrapping_mul(29).wrapping_add((j as u8).wrapping_mul(3)) & 0x7f)).collect()
+    // (the high bits of the index are mixed in: long buffers have no period of 256)
+    (0..n).map(|j| 0x80 | (tag.wrapping_mul(29).wrapping_add((j as u8).wrapping_mul(3)).wrapping_add(((j >> 8) as u8).wrapping_mul(11)) & 0x7f)).collect()
 }
 
 fn mk<T: ByteValued>(bytes: &[u8]) -> T {
@@ -517,13 +518,13 @@ pub fn run_op<B: BitmapSlice>(vs: &VolatileSlice<B>, op: &Op, tag: u8) -> Real {
             _ => unreachable!(),
         }),
         Op::ReadFrom { off, count } => {
-            let d: Vec<u8> = wdata(tag, count.min(8192)).into_iter().chain(std::iter::repeat(0x7e).take(count.min(64))).collect();
+            let d: Vec<u8> = wdata(tag, count.min(1 << 18)).into_iter().chain(std::iter::repeat(0x7e).take(count.min(64))).collect();
             let mut src: &[u8] = &d;
             let out = vcls(vs.read_volatile_from(off, &mut src, count), Out::Count);
             Real { out, buf: vec![(d.len() - src.len()) as u8], canary_ok: true }
         }
         Op::ReadExactFrom { off, count } => {
-            let d: Vec<u8> = wdata(tag, count.min(8192)).into_iter().chain(std::iter::repeat(0x7e).take(count.min(64))).collect();
+            let d: Vec<u8> = wdata(tag, count.min(1 << 18)).into_iter().chain(std::iter::repeat(0x7e).take(count.min(64))).collect();
             let mut src: &[u8] = &d;
             let out = vcls(vs.read_exact_volatile_from(off, &mut src, count), |_| Out::Unit);
             Real { out, buf: vec![(d.len() - src.len()) as u8], canary_ok: true }
@@ -778,13 +779,13 @@ pub fn model_op(mem: &[u8], ptr: usize, op: &Op, tag: u8) -> Expected {
             }
             let n = count.min(l - off);
             let mut m = mem.to_vec();
-            put(&mut m, off, &wdata(tag, count.min(8192))[..n]);
+            put(&mut m, off, &wdata(tag, count.min(1 << 18))[..n]);
             Expected { out: vec![Out::Count(n)], buf: Some(vec![n as u8]), mem: vec![m], written: vec![vec![(off, n)]] }
         }
         Op::ReadExactFrom { off, count } => {
             if fits(off, count, l) {
                 let mut m = mem.to_vec();
-                put(&mut m, off, &wdata(tag, count.min(8192))[..count]);
+                put(&mut m, off, &wdata(tag, count.min(1 << 18))[..count]);
                 Expected { out: vec![Out::Unit], buf: Some(vec![count as u8]), mem: vec![m], written: vec![vec![(off, count)]] }
             } else {
                 // must fail; whether a prefix was transferred first is not fixed by the property
@@ -794,7 +795,7 @@ pub fn model_op(mem: &[u8], ptr: usize, op: &Op, tag: u8) -> Expected {
                 if off < l {
                     let n = l - off;
                     let mut m = mem.to_vec();
-                    put(&mut m, off, &wdata(tag, count.min(8192))[..n]);
+                    put(&mut m, off, &wdata(tag, count.min(1 << 18))[..n]);
                     e.mem.push(m);
                     e.written.push(vec![(off, n)]);
                     e.out.push(Out::Partial(count, n));
@@ -877,7 +878,7 @@ impl Placed {
 }
 
 pub fn labels(n: usize) -> Vec<u8> {
-    (0..n).map(|i| 0x10 + (i as u8 % 0x60)).collect()
+    (0..n).map(|i| 0x10 + ((i + (i >> 8) * 7) % 0x60) as u8).collect()
 }
 
 /// One transition on the placed container. Returns the successor contents.
@@ -1115,7 +1116,7 @@ fn explore_container(ctx: &Ctx, what: &str, p: &Placed, thorough: bool, full_dep
 
 pub fn run(tier: Tier, replay: Option<String>) -> i32 {
     let ctx = crate::new_ctx("C04", tier, "model_checking", &replay);
-    ctx.set_rule("E1 on one container: depth 1 = the complete alphabet (every accessor route x every offset 0..=N+1 x every length/count 0..=N+2 plus values around isize::MAX/usize::MAX x 12 element types of 1..16 bytes x local buffers at every misalignment 0..7) from a labelled state; depth 2 = product (write route) x (read route) at aligned and unaligned positions with the state carried over; depth 3 = write, overlapping write, read. Containers: VolatileSlice of N in 0..=24 bytes at every address mod 8 (one copy ending at a PROT_NONE guard page), MmapRegion of 24 and 4099 bytes. After every transition the result, the complete container, a 64-byte frame around it, the caller's buffer and canaries around that buffer are compared with a Vec<u8> model.");
+    ctx.set_rule("E1 on one container: depth 1 = the complete alphabet (every accessor route x every offset 0..=N+1 x every length/count 0..=N+2 plus values around isize::MAX/usize::MAX x 12 element types of 1..16 bytes x local buffers at every misalignment 0..7) from a labelled state; depth 2 = product (write route) x (read route) at aligned and unaligned positions with the state carried over; depth 3 = write, overlapping write, read. Containers: VolatileSlice of N in 0..=24 bytes at every address mod 8 (one copy ending at a PROT_NONE guard page), MmapRegion of 24 and 4099 bytes. After every transition the result, the complete container, a 64-byte frame around it, the caller's buffer and canaries around that buffer are compared with a Vec<u8> model. An MmapRegion of 140001 bytes: every buffer, stream and copy route with transfers of 2^16-1 .. 140001 bytes in one call (around 2^16 and 2^17, at offsets 0, 1, 3 and ending at the end), contents without a short period.");
     ctx.assume("stream forms that start exactly at the end of the container may return Ok(0) or an error; a failing exact stream form may or may not have moved a prefix");
     let thorough = tier.thorough();
     if let Some(r) = ctx.replay_of.clone() {
@@ -1200,7 +1201,7 @@ pub fn run(tier: Tier, replay: Option<String>) -> i32 {
 #[cfg(not(feature = "xen"))]
 fn mmap_regions(ctx: &Ctx, thorough: bool) {
     use vm_memory::MmapRegion;
-    for size in [24usize, 4099] {
+    for size in [24usize, 4099, 140001] {
         let region = MmapRegion::<()>::new(size).unwrap();
         // the region's own get_slice at every offset/count, then the Bytes routes through it
         let n = size;
@@ -1209,6 +1210,7 @@ fn mmap_regions(ctx: &Ctx, thorough: bool) {
         let set = |st: &[u8]| unsafe { std::ptr::copy_nonoverlapping(st.as_ptr(), region.as_ptr(), n) };
         let get = || unsafe { std::slice::from_raw_parts(region.as_ptr(), n) }.to_vec();
         let offs: Vec<usize> = if size <= 32 { (0..=n + 1).collect() } else { vec![0, 1, 4090, 4095, 4096, 4097, n - 1, n, n + 1] };
+        let offs: Vec<usize> = if size > 100_000 { vec![0, 1, 65535, 65536, n - 1, n, n + 1] } else { offs };
         for &off in offs.iter().chain(EXT.iter()) {
             for &cnt in [0usize, 1, 2, 3, 8, 9, n.saturating_sub(off), n.saturating_sub(off) + 1].iter().chain(EXT.iter()) {
                 t += 1;
@@ -1221,7 +1223,7 @@ fn mmap_regions(ctx: &Ctx, thorough: bool) {
                             continue;
                         }
                         // write through it and read back through the whole-region slice
-                        let d = wdata(7, cnt.min(64));
+                        let d = wdata(7, if size > 100_000 { cnt.min(n) } else { cnt.min(64) });
                         let w = sl.write(&d, 0);
                         let mut expect = state.clone();
                         let k = d.len().min(cnt);
@@ -1239,7 +1241,29 @@ fn mmap_regions(ctx: &Ctx, thorough: bool) {
             }
         }
         // the Bytes / typed routes through as_volatile_slice() on a reduced alphabet
-        let ops: Vec<Op> = if size <= 32 { alphabet(n, thorough) } else {
+        let ops: Vec<Op> = if size > 100_000 {
+            // transfers of tens of KiB up to the whole container in one call, around 2^16 and 2^17
+            let mut v = Vec::new();
+            for (off, len) in [(0usize, 65535usize), (0, 65536), (0, 65537), (1, 65536), (3, 131072), (0, 131073), (0, n), (1, n), (70000, 70001), (70001, 70001), (n - 65536, 65536), (n - 65537, 65538)] {
+                v.push(Op::Write { off, len, mis: 3 });
+                v.push(Op::WriteSlice { off, len, mis: 0 });
+                v.push(Op::Read { off, len, mis: 1 });
+                v.push(Op::ReadSlice { off, len, mis: 0 });
+                v.push(Op::ReadFrom { off, count: len });
+                v.push(Op::ReadExactFrom { off, count: len });
+                v.push(Op::WriteTo { off, count: len });
+                v.push(Op::WriteAllTo { off, count: len });
+                v.push(Op::SliceCopyFrom { ty: Ty::U8, off, len, m: len });
+                v.push(Op::SliceCopyTo { ty: Ty::U8, off, len, m: len + 1 });
+                if off + len <= n {
+                    v.push(Op::SliceCopyFrom { ty: Ty::U32, off, len: len / 4 * 4, m: len / 4 });
+                    v.push(Op::ArrCopyTo { ty: Ty::U64, off, n: len / 8, m: len / 8 });
+                }
+            }
+            v.push(Op::SliceCopyToVs { off: 0, len: 70000, dst: Dst::Same(70000, 70000) });
+            v.push(Op::SliceCopyToVs { off: 3, len: 65537, dst: Dst::Foreign(65537) });
+            v
+        } else if size <= 32 { alphabet(n, thorough) } else {
             let mut v = reduced_writes(n);
             v.extend(reduced_reads(n));
             for off in [4090usize, 4093, 4095, 4096, 4098] {
